@@ -79,7 +79,7 @@ fn case<S: Shape>(r: &mut Rng, acc: &mut Acc, index: u64) {
     let kinds = &S::KINDS[..S::N_ANIM];
     let merged = r.chance(1, 4);
     let n_comp = if merged { 1 + r.usize(3) } else { 1 };
-    let specs: Vec<TlSpec> = (0..n_comp).map(|_| gen_tl(r, kinds, &GenOpts::default())).collect();
+    let specs: Vec<TlSpec> = (0..n_comp).map(|_| gen_tl(r, kinds, &GenOpts { neg_delay: true, ..GenOpts::default() })).collect();
     let keyed: Vec<bool> = (0..S::n()).map(|f| f < S::N_ANIM && specs.iter().any(|s| s.defines(f))).collect();
     let mut tl = build::<S>(&specs, merged);
     let n_start = r.usize(5);
@@ -186,6 +186,20 @@ fn case<S: Shape>(r: &mut Rng, acc: &mut Acc, index: u64) {
     acc.eval();
     if tl.digest() != digest0 {
         acc.violation("c09:digest", "Debug digest of the timeline changed across evaluations".to_string(), case("state digest unchanged by evaluation", 0.0));
+    }
+    // start_with on a clone must not reach the original (no shared state between clones)
+    {
+        let mut c = tl.clone2();
+        let mut v = S::default();
+        for i in 0..S::n() {
+            v.set(i, gen_value(r, S::KINDS[i]));
+        }
+        c.start_with(&v);
+        for ti in (0..times.len()).step_by(3) {
+            let mut x = S::default();
+            tl.update(&mut x, times[ti]);
+            cmp(acc, &x, ti, "original after start_with was called on its clone", "clone-shares-state");
+        }
     }
     // start_with: only the last one counts
     if n_start >= 1 {
